@@ -1,3 +1,104 @@
-(* C23 — placeholder while the proofs are being written *)
-From WK Require Import Base.Base Gen.Consts_C22 Model.WKProto Model.WKStream.
+(* C23 — Client stream decoding is robust to arbitrary bytes and splits.
+   DecodeFrame / Adapter_Decode / onData / feed are the transcriptions of
+   codec.WKProto.DecodeFrame, wkproto.Adapter.Decode and core.Server.onData
+   (Model/WKProto.v).  The session's protocol version sv is arbitrary (unset and 0
+   mean LatestVersion); the frames of a valid stream are within the protocol limits
+   of C22.  Only statements, each closed by [exact] of a lemma from Proof/WKStream*.v. *)
+From WK Require Import Base.Base Base.Bytes Gen.Consts_C22 Model.WKProto Model.WKStream.
+From WK Require Import Proof.WKProto Proof.WKProto_types Proof.WKProto_frame.
+From WK Require Import Proof.WKStream Proof.WKStream_feed Proof.WKStream_monitor.
 Open Scope N_scope.
+
+(* a decoded frame is determined by the n bytes it consumed: n is at least 1 and
+   within the input (nothing is read past it — including decodeLength's cut-off
+   after four continuation bytes, where the length-of-length is reported as 5),
+   and whatever follows those n bytes the result is the same frame and the same n *)
+Theorem c23_prefix_determined : forall bs v f m n, DecodeFrame bs v = DFrame f m n ->
+  1 <= n /\ n <= blen bs /\
+  forall x, DecodeFrame (firstn (N.to_nat n) bs ++ x) v = DFrame f (with_fsize m (n + blen x)) n.
+Proof. exact DecodeFrame_prefix. Qed.
+Print Assumptions c23_prefix_determined.
+
+(* a non-empty strict prefix of an encoded frame is "need more data": never a
+   frame, never an error, never a different length *)
+Theorem c23_incomplete_no_progress : forall v f p q, within_limits v f = true ->
+  p ++ q = frame_bytes f v -> p <> [] -> q <> [] -> DecodeFrame p v = DNeed.
+Proof. exact DecodeFrame_incomplete. Qed.
+Print Assumptions c23_incomplete_no_progress.
+
+(* the adapter reports no frames and no consumed bytes on any strict prefix (the empty one included) *)
+Theorem c23_adapter_incomplete : forall sv f p q,
+  within_limits (sessionVersion_inbound sv) f = true ->
+  p ++ q = frame_bytes f (sessionVersion_inbound sv) -> q <> [] ->
+  Adapter_Decode sv p = AOk [] 0.
+Proof. exact Adapter_Decode_incomplete. Qed.
+Print Assumptions c23_adapter_incomplete.
+
+(* sticky frames: complete frames followed by an incomplete rest p are all
+   returned, in order, and exactly their bytes are consumed *)
+Theorem c23_adapter_frames : forall sv fs p,
+  Forall (fun f => within_limits (sessionVersion_inbound sv) f = true) fs ->
+  needy p (sessionVersion_inbound sv) ->
+  Adapter_Decode sv (stream_of (sessionVersion_inbound sv) fs ++ p)
+  = AOk (decoded (sessionVersion_inbound sv) fs (blen p)) (blen (stream_of (sessionVersion_inbound sv) fs)).
+Proof. exact Adapter_Decode_frames. Qed.
+Print Assumptions c23_adapter_frames.
+
+(* ANY chunking of the concatenated encodings of fs, fed to the gateway's buffering
+   loop, dispatches exactly the frames fs (normalized as in C22) in order, leaves
+   nothing buffered and does not close the session — provided the stream fits the
+   inbound limit (limit 0 = none) *)
+Theorem c23_stream : forall sv limit fs chunks,
+  Forall (fun f => within_limits (sessionVersion_inbound sv) f = true) fs ->
+  concat chunks = stream_of (sessionVersion_inbound sv) fs ->
+  limit_ok limit (blen (stream_of (sessionVersion_inbound sv) fs)) ->
+  exists batches,
+    feed limit sv gw_init chunks = (GW [] false false, batches)
+    /\ map fst (concat batches) = map (normalize (sessionVersion_inbound sv)) fs.
+Proof. exact feed_any_chunking. Qed.
+Print Assumptions c23_stream.
+
+(* arbitrary bytes: the adapter never reaches the panic outcome (DecodeFrame is only
+   called on non-empty input, the only place where the Go code indexes unguarded) and
+   never reports more consumed bytes than it was given *)
+Theorem c23_total : forall sv inp,
+  Adapter_Decode sv inp <> APanic /\
+  (forall fs c, Adapter_Decode sv inp = AOk fs c -> c <= blen inp).
+Proof. exact Adapter_Decode_total. Qed.
+Print Assumptions c23_total.
+
+Theorem c23_decode_no_panic : forall b rest v, DecodeFrame (b :: rest) v <> DPanic.
+Proof. exact DecodeFrame_no_panic. Qed.
+Print Assumptions c23_decode_no_panic.
+
+(* arbitrary chunks of arbitrary bytes: the gateway loop never reaches the panic outcome *)
+Theorem c23_gateway_total : forall limit sv chunks,
+  gw_panicked (fst (feed limit sv gw_init chunks)) = false.
+Proof. intros limit sv chunks. exact (feed_no_panic limit sv chunks gw_init eq_refl). Qed.
+Print Assumptions c23_gateway_total.
+
+(* the monitor run on implementation traces accepts every trace the model produces,
+   for arbitrary chunks (safety part) and for valid streams (exact frames, no
+   progress on incomplete frames, nothing left over) *)
+Theorem c23_model_satisfies_monitor : forall sv limit frames chunks,
+  C23_monitor (model_case sv limit frames chunks) = 0.
+Proof. exact model_satisfies_monitor. Qed.
+Print Assumptions c23_model_satisfies_monitor.
+
+(* non-vacuity and the quirks of the code, by computation *)
+Example c23_example_chunked :
+  let f1 := FSend (Flags false true false false false) 0 0 7 2 [] (hx "6d31") [] (hx "6731") [] (hx "6869") in
+  let f2 := FPing (Flags false false false false false) in
+  let s := stream_of 6 [f1; f2; f1] in
+  within_limits 6 f1 = true
+  /\ map fst (concat (snd (feed 0 None gw_init [firstn 1 s; firstn 7 (skipn 1 s); skipn 8 s]))) = [f1; f2; f1]
+  /\ Adapter_Decode None (firstn 20 s) = AOk [] 0.
+Proof. vm_compute. repeat split. Qed.
+
+(* four continuation bytes: length 0 with a reported length-of-length of 5; five
+   bytes are "need more", with a sixth the (empty) body is decoded — here an error *)
+Example c23_example_varint_cutoff :
+  DecodeFrame (hx "3080808080") 6 = DNeed /\ DecodeFrame (hx "308080808041") 6 = DErr
+  /\ DecodeFrame (hx "30ffffff7f") 6 = DErr /\ DecodeFrame (hx "00" ++ hx "0501") 6 = DNeed
+  /\ DecodeFrame [] 6 = DPanic /\ Adapter_Decode None [] = AOk [] 0.
+Proof. vm_compute. repeat split. Qed.
